@@ -475,8 +475,11 @@ impl Emit<'_> {
                 .collect();
             keys.push(("x_facebook_sources".into(), format!("[{}]", items.join(","))));
         }
-        if rng.chance(1, 8) {
-            keys.push(("x_unknown_extension".into(), "{\"a\":[1,2,{\"b\":null}]}".into()));
+        if rng.chance(1, 5) {
+            // keys the decoder ignores, with string values of their own (a decoder must neither
+            // trip over them nor treat them differently on its different paths)
+            keys.push(((*rng.pick(&["x_unknown_extension", "x_comment", "x_google_linecount", "generator"])).into(),
+                (*rng.pick(&["{\"a\":[1,2,{\"b\":null}]}", "\"generated by an unknown tool, version one point two\"", "{\"note\":\"some longer text value here\",\"n\":[\"abcdefghij\",\"klmnopqrst\"]}", "[\"alpha\",\"beta\",\"gamma\",\"delta\"]", "17"])).into()));
         }
         let _ = depth;
         self.object(keys)
